@@ -1,8 +1,8 @@
 package props
 
 import (
-	"github.com/freeconf/yang/val"
 	"fmt"
+	"github.com/freeconf/yang/val"
 	"math"
 	"math/big"
 	"regexp"
@@ -135,7 +135,7 @@ func c05pool(lo, hi *big.Int, rng *core.Rng) []*big.Int {
 }
 
 func C05(c *core.Ctx) {
-	c.Rule = "generated modules of leaves/leaf-lists: every numeric base type (+decimal64, string length) × typedef chains of depth 0–3 × restriction texts (alternatives, open ends, min/max, single values, negative and 64-bit bounds) × candidate values at and around every bound, base min/max, 0; written through SetValue, UpsertFrom(JSON) and UpsertFrom(node); store compared before/after. non-trivial = value within ±1 of a bound or at a base-type extreme; distinct by (leaf type text, value, path); directed (c05typedValues): 24 typed values (val.Enum, val.Bits, val.IdentRef, lists, values of another kind) written with Selection.Set and handed to UpsertFrom by a source node: stored iff a value of the type; (c05identityBases) identityref types with one and two bases, through a typedef, a leafref and on a leaf-list × 8 identities (bases, derived from one, from both, from a derived one, unknown): verdict compared with Member.identByBases over the closures the compiled schema shows"
+	c.Rule = "generated modules of leaves/leaf-lists: every numeric base type (+decimal64, string length) × typedef chains of depth 0–3 × restriction texts (alternatives, open ends, min/max, single values, negative and 64-bit bounds) × candidate values at and around every bound, base min/max, 0; written through SetValue, UpsertFrom(JSON) and UpsertFrom(node); store compared before/after. non-trivial = value within ±1 of a bound or at a base-type extreme; distinct by (leaf type text, value, path); directed (c05typedValues): 24 typed values (val.Enum, val.Bits, val.IdentRef, lists, values of another kind) written with Selection.Set and handed to UpsertFrom by a source node: stored iff a value of the type; (c05identityBases) identityref types with one and two bases, through a typedef, a leafref and on a leaf-list × 8 identities (bases, derived from one, from both, from a derived one, unknown): verdict compared with Member.identByBases over the closures the compiled schema shows; (c05keyOutOfType) entries under keys their key leaves refuse (range, length, second component), upsert and insert, two map-backed nodes: an error and no entry"
 	c.Assumptions = append(c.Assumptions,
 		"regexp matching is an uninterpreted predicate: the harness evaluates each pattern with Go's regexp and passes the booleans to the model",
 		"decimal64 values/bounds are generated with ≤2 fraction digits and |x| ≤ 10^6 so that float64 comparison agrees with exact decimal comparison",
@@ -152,6 +152,7 @@ func C05(c *core.Ctx) {
 	c05membership(c, rng)
 	c05typedValues(c)
 	c05identityBases(c)
+	c05keyOutOfType(c)
 }
 
 // values that were not made for the leaf they are written to - handed to Set as typed values by the caller, or to
@@ -342,6 +343,66 @@ func c05identityBases(c *core.Ctx) {
 	}
 }
 
+// "a rejected write stores nothing": an entry is not made under a key its key leaves refuse
+func c05keyOutOfType(c *core.Ctx) {
+	y := `module ko { namespace "urn:ko"; prefix ko; revision 2020-01-01;
+  list items { key id; leaf id { type int32 { range "1..10"; } } leaf v { type string; } }
+  list names { key n; leaf n { type string { length "1..3"; } } leaf v { type string; } }
+  list two { key "a b"; leaf a { type string; } leaf b { type uint8 { range "0..9"; } } leaf v { type string; } }
+  container c { list in { key e; leaf e { type enumeration { enum x; enum y; } } leaf v { type string; } } } }`
+	m, err := parser.LoadModuleFromString(nil, y)
+	if err != nil {
+		c.Violation(core.Replay{Kind: "harness", Summary: "c05keyOutOfType module: " + err.Error(), NoInputFound: true})
+		return
+	}
+	for _, be := range []string{"reflect-map", "node-map"} {
+		for _, tc := range []struct {
+			doc string
+			ok  bool
+		}{
+			{`{"items":[{"id":99,"v":"x"}]}`, false}, {`{"items":[{"id":5,"v":"x"}]}`, true}, {`{"items":[{"id":3},{"id":0,"v":"x"}]}`, false},
+			{`{"names":[{"n":"abcdef"}]}`, false}, {`{"names":[{"n":"abc"}]}`, true},
+			{`{"two":[{"a":"k","b":77,"v":"x"}]}`, false}, {`{"two":[{"a":"k","b":7,"v":"x"}]}`, true},
+		} {
+			for _, op := range []string{"upsert", "insert"} {
+				store := map[string]interface{}{}
+				var werr error
+				e := safeDo(func() error {
+					var root node.Node = nodeutil.ReflectChild(store)
+					if be == "node-map" {
+						root = &nodeutil.Node{Object: store}
+					}
+					src, err := nodeutil.ReadJSON(tc.doc)
+					if err != nil {
+						return err
+					}
+					werr = applyEdit(node.NewBrowser(m, root).Root(), op, src)
+					return nil
+				})
+				c.Evaluations++
+				c.Count("key_out_of_type", be+" "+op)
+				c.Distinct("keyoot " + be + op + tc.doc)
+				bad := ""
+				left := fmt.Sprint(store)
+				switch {
+				case e != nil:
+					bad = e.Error()
+				case tc.ok && werr != nil:
+					bad = fmt.Sprintf("refused (%v)", werr)
+				case !tc.ok && werr == nil:
+					bad = "accepted, store " + left
+				case !tc.ok && strings.Contains(left, "99") || !tc.ok && strings.Contains(left, "abcdef") || !tc.ok && strings.Contains(left, "77") || !tc.ok && strings.Contains(left, "0:"):
+					bad = fmt.Sprintf("refused (%v) and an entry under the refused key is in the store: %s", werr, left)
+				}
+				if bad != "" {
+					c.Violation(core.Replay{Kind: "property-failure", Class: "key-out-of-type-" + be, Summary: fmt.Sprintf("%s: %s of %s: %s", be, op, tc.doc, bad),
+						Input: map[string]interface{}{"yang": y, "backend": be, "op": op, "doc": tc.doc}, Impl: bad, Spec: map[bool]string{true: "accepted", false: "an error, no entry under that key"}[tc.ok]})
+				}
+			}
+		}
+	}
+}
+
 func c05module(c *core.Ctx, rng *core.Rng, mi int) {
 	bases := []string{"int8", "int16", "int32", "int64", "uint8", "uint16", "uint32", "uint64", "decimal64", "string"}
 	var leaves []*c05leaf
@@ -403,7 +464,7 @@ func c05module(c *core.Ctx, rng *core.Rng, mi int) {
 					} else {
 						fmt.Fprintf(&sb, " pattern \"%s\";", p)
 					}
-					l.pats = append(l.pats, [2]string{p, inv, }) // provisional: fixed below by effective-type read
+					l.pats = append(l.pats, [2]string{p, inv}) // provisional: fixed below by effective-type read
 				}
 				return sb.String()
 			}
